@@ -28,8 +28,9 @@ RULE = {"C20": (
     "seeded choice of a cell (entry point x malformation class from the reviewed applicability "
     "matrix) with randomised otherwise-valid context (series, index origin, forecaster, horizon, "
     "window); per run: control call, faulty call, then a valid call on the same object. "
-    "Non-trivial = the control was accepted and the faulty call executed; distinct = canonical "
-    "scenario JSON (cell x variant x context).")}
+    "Non-trivial = the control was accepted and the faulty call executed; distinct = (cell, "
+    "variant drawn inside the cell such as forecaster kind / splitter type / update_params, "
+    "exception type raised), i.e. independent of the context seed.")}
 ASSUMPTIONS = {"C20": [
     "the applicability matrix (which malformation is meaningful at which entry point) is data in "
     "engines/malformed.py, reviewed against the statement so that no rejection is demanded that "
@@ -808,6 +809,9 @@ def execute(prop, scen):
                             "raised %s: %s" % (name, type(e).__name__, str(e)[:160]), **sig)
     res.states.add(short_hash([name]))
     res.digest = digest.hexdigest()[:16]
+    # identity of the case = cell x the variant actually drawn inside it x outcome (not the
+    # context seed: thousands of seeds exercise the same few hundred distinct cases)
+    res.variant = short_hash([name, sig, res.digest])
     return res
 
 
